@@ -37,6 +37,8 @@ def plan(ctx):
     cases += [("manysurveys", i) for i in range(12 if ctx.thorough else 2)]
     # many epochs: det(2 pi B) itself (not its logarithm) leaves the double range - (2 pi sigma^2)^n in the data unit
     cases += [("manyepochs", i) for i in range(24 if ctx.thorough else 6)]
+    # lists / dicts of sources that declare one explicit reference epoch
+    cases += [("listepoch", i) for i in range(24 if ctx.thorough else 4)]
     return cases
 
 
@@ -379,11 +381,95 @@ def run_manyepochs(ctx, g, rng):
                 return
 
 
+def run_listepoch(ctx, g, rng):
+    """data handed over as a LIST (or dict) of RVData that all declare one explicit reference epoch (the pattern of the offsets
+    tutorial: `RVData.guess_from_table(tbl, t_ref=tbl.meta["t_ref"])` per survey, then `[s1, s2]`), and the one-element list
+    `[data]`: M0 is the mean anomaly at the DECLARED epoch and the trend columns are powers of `t - t_ref`.  Reference: dense
+    closed form at the declared epoch (numpy slogdet / solve); for one source also the bare `data` call."""
+    import astropy.units as u
+    import pymc as pm
+    import thejoker as tj
+    from astropy.time import Time
+    two = g["index"] % 2 == 1
+    ptrend = int(rng.choice([1, 2]))
+    n1, n2 = int(rng.integers(4, 8)), int(rng.integers(3, 6))
+    t1 = 58000.0 + np.sort(rng.uniform(10, 300, n1))
+    t2 = 58000.0 + np.sort(rng.uniform(10, 300, n2))
+    T = 58000.0 - float(rng.uniform(5, 40))                      # declared epoch: not the earliest observation
+    tref = Time(T, format="mjd", scale="tcb")
+    e1, e2 = rng.uniform(0.3, 1.0, n1), rng.uniform(0.3, 1.0, n2)
+    y1, y2 = rng.normal(0, 15, n1), rng.normal(3, 15, n2)
+    d1 = tj.RVData(Time(t1, format="mjd", scale="tcb"), y1 * u.km / u.s, e1 * u.km / u.s, t_ref=tref)
+    d2 = tj.RVData(Time(t2, format="mjd", scale="tcb"), y2 * u.km / u.s, e2 * u.km / u.s, t_ref=tref)
+    sig_v = [100.0, 0.5][:ptrend]
+    with pm.Model():
+        kw = {}
+        if two:
+            kw["v0_offsets"] = [tj.units.with_unit(pm.Normal("dv0_1", 4.0, 10.0), u.km / u.s)]
+        prior = tj.JokerPrior.default(P_min=2 * u.day, P_max=500 * u.day, sigma_K0=30 * u.km / u.s, poly_trend=ptrend,
+                                      sigma_v=[sig_v[0] * u.km / u.s, 0.5 * u.km / u.s / u.day][:ptrend], **kw)
+    N = 5
+    smp = tj.JokerSamples(poly_trend=ptrend, n_offsets=1 if two else 0)
+    Ps, es = rng.uniform(5, 200, N), rng.uniform(0, 0.7, N)
+    oms, Ms, ss = rng.uniform(0, 6.28, N), rng.uniform(0, 6.28, N), rng.uniform(0, 1.0, N)
+    smp["P"] = Ps * u.day; smp["e"] = es * u.one; smp["omega"] = oms * u.rad; smp["M0"] = Ms * u.rad; smp["s"] = ss * u.km / u.s
+    jk = tj.TheJoker(prior, rng=np.random.default_rng(1))
+    form = str(rng.choice(["list", "dict"]))
+    srcs = [d1, d2] if two else [d1]
+    data = srcs if form == "list" else {("a", "b")[i]: d for i, d in enumerate(srcs)}
+    t = np.concatenate([t1, t2]) if two else t1
+    y = np.concatenate([y1, y2]) if two else y1
+    err = np.concatenate([e1, e2]) if two else e1
+    lab = np.concatenate([np.zeros(n1), np.ones(n2)]) if two else np.zeros(n1)
+    n = len(t)
+    inp = dict(sources=2 if two else 1, form=form, poly_trend=ptrend, declared_t_ref_bmjd=T, earliest_epoch_bmjd=float(t.min()),
+               t=t.tolist(), rv=y.tolist(), err=err.tolist())
+    ctx.count("listepoch:" + ("two sources" if two else "one-element list"))
+    try:
+        got = np.asarray(jk.marginal_ln_likelihood(data, smp, in_memory=bool(g["index"] % 4 < 2)), dtype=float)
+        bare = None if two else np.asarray(jk.marginal_ln_likelihood(d1, smp, in_memory=True), dtype=float)
+    except Exception as e:   # noqa: BLE001
+        ctx.evaluated(R2, (g["kind"], g["index"]))
+        ctx.violation(R2, g, inp, f"{type(e).__name__}: {str(e)[:160]}", None, "marginal_ln_likelihood must accept a list / dict of sources "
+                      "that declare a common reference epoch", tags=dict(kind="listepoch"))
+        return
+    for i in range(N):
+        kep = scen.kepler_column(t, Ps[i], es[i], oms[i], Ms[i], T)
+        cols, mu, lam = [kep, np.ones(n)], [0.0, 0.0], [min(30.0 ** 2 * (Ps[i] / 365.25) ** (-2 / 3) / (1 - es[i] ** 2), 500.0 ** 2), sig_v[0] ** 2]
+        if two:
+            cols.append((lab == 1).astype(float)); mu.append(4.0); lam.append(100.0)
+        if ptrend == 2:
+            cols.append(t - T); mu.append(0.0); lam.append(0.25)
+        M = np.stack(cols, axis=1)
+        B = np.diag(err ** 2 + ss[i] ** 2) + (M * np.array(lam)) @ M.T
+        r = y - M @ np.array(mu)
+        sign, ld = np.linalg.slogdet(B)
+        ref = -0.5 * (float(r @ np.linalg.solve(B, r)) + ld + n * np.log(2 * np.pi))
+        tol = 1e-7 * (1 + abs(ref))
+        ctx.evaluated(R2, (g["kind"], g["index"], i))
+        v = float(got[i])
+        if not abs(v - ref) <= tol:
+            # how the same closed form comes out at the earliest observation instead of the declared epoch
+            kep_min = scen.kepler_column(t, Ps[i], es[i], oms[i], Ms[i], float(t.min()))
+            ctx.violation(R2, g, dict(inp, row=i, theta=dict(P=Ps[i], e=es[i], omega=oms[i], M0=Ms[i], s=ss[i])), dict(ll=v, ll_of_the_bare_RVData=None if bare is None else float(bare[i])),
+                          dict(closed_form_at_declared_epoch=ref, tol=tol),
+                          "the sources declare one reference epoch: M0 and the trend refer to it - marginal_ln_likelihood of the list / dict must "
+                          f"equal ln N(y | M mu, C + s^2 I + M Lambda M^T) with M built about that epoch (deviation {abs(v - ref):.3g})",
+                          tags=dict(kind="listepoch", sources=2 if two else 1))
+            return
+        if bare is not None and not abs(float(bare[i]) - v) <= tol:
+            ctx.violation(R2, g, dict(inp, row=i), dict(ll_list=v, ll_bare=float(bare[i])), dict(closed_form=ref),
+                          "[data] and data are the same data set: same marginal likelihood", tags=dict(kind="listepoch", sources=1))
+            return
+
+
 def run_case(ctx, g):
     ctx.seed = g.get("seed", ctx.seed)
     rng = ctx.case_rng(g["kind"], g["index"])
     if g["kind"] == "manyepochs":
         return run_manyepochs(ctx, g, rng)
+    if g["kind"] == "listepoch":
+        return run_listepoch(ctx, g, rng)
     run_problem(ctx, g, rng, high_e=(g["kind"] == "higheccen"), large=(g["kind"] == "problemL"), many=(g["kind"] == "manysurveys"))
 
 
